@@ -204,6 +204,28 @@ func runC03(res *Result, d *Driver, g *Rng, tier string) {
 	for _, s := range []string{"Sub", "sub:", "id:", "id:12345", "Text", "Submit_Date", "stat:DELIVRD", "\x05\x00\x03", "\x06\x08\x04\x01\x02\x03", "\x00\x00\x00\x02", "\x00\x00\x00\x00"} {
 		inputs = append(inputs, []byte(s))
 	}
+	// delivery receipts: every truncation point of well-formed texts of both dialects, and every key
+	// token followed by 0..24 octets at the end of the text (with and without something before it)
+	receipts := []string{
+		"id:0123456789 sub:001 dlvrd:001 submit date:2401011200 done date:2401011201 stat:DELIVRD err:000 text:hello world",
+		"id:\x01\x02\x03\x04\x05\x06\x07\x08\x09\x10 sub:001 dlvrd:001 Submit_Date:2401011200 Done_Date:2401011201 Stat:DELIVRD Err:000 Text:hello",
+		"id:\x01\x02\x03\x04\x05\x06\x07\x08\x09\x10 sub:001 dlvrd:001 Submit date:2401011200 Done date:2401011201 Stat:DELIVRD Err:000 Text:hello",
+		"id:abc sub:1 dlvrd:1 submit date:1 done date:1 stat:X err:1 text:",
+	}
+	for _, r := range receipts {
+		for cut := 0; cut <= len(r); cut++ {
+			inputs = append(inputs, []byte(r[:cut]))
+			if cut%5 == 0 {
+				inputs = append(inputs, []byte(r[cut:]))
+			}
+		}
+	}
+	for _, key := range []string{"id:", "sub:", "dlvrd:", "submit date:", "done date:", "stat:", "err:", "text:", "Text:", "Submit_Date:", "Done_Date:", "Submit date:", "Done date:", "Stat:", "Err:"} {
+		for n := 0; n <= 24; n++ {
+			tail := strings.Repeat("7", n)
+			inputs = append(inputs, []byte(key+tail), []byte("xx "+key+tail), []byte(key+tail+" "))
+		}
+	}
 	for i := 0; i < 3000; i++ {
 		inputs = append(inputs, g.Bytes(g.Intn(40)))
 	}
@@ -275,7 +297,6 @@ func runC03(res *Result, d *Driver, g *Rng, tier string) {
 			c.probeAlloc("Decode:"+cname, buf, rp, func() { goRun(codecs[cname], [][]byte{buf}) })
 		}
 	}
-	_ = strings.Join
 	if thorough {
 		res.Notes = append(res.Notes, "coverage-guided fuzzing is not part of this tier: the enumeration above is structure-directed")
 	}
